@@ -15,6 +15,8 @@ ENGINES = [
      "kind_free_text": "interpreter run (thorough tier): the smallest snapshot/cancel scenario (reader on an old snapshot, owner applying a change) under Miri with seeded schedules; data races / UB become violations, the C12 oracles judge what the threads observed"},
     {"name": "m_conc", "path": "harness/vh/src/bin/m_conc.rs", "serves_properties": ["C12"],
      "kind_free_text": "runtime monitor: multi-threaded scenarios (main thread owning the host + reader threads on tagged snapshots, seeded sleeps/yields); offline checker compares every recorded answer with a sequential fresh analysis of the tagged version; cancellation/promptness accounting"},
+    {"name": "san_selftest", "path": "harness/vh/src/bin/san_selftest.rs", "serves_properties": ["C12", "C15", "C16"],
+     "kind_free_text": "self-test of the sanitizer tiers: a deliberately racy / use-after-free program built exactly like the sanitizer engines; it must be reported by ThreadSanitizer / AddressSanitizer before a sanitizer run is believed"},
     {"name": "m_sema", "path": "harness/vh/src/bin/m_sema.rs", "serves_properties": ["C05", "C06", "C07", "C08", "C18"],
      "kind_free_text": "runtime monitor: scope-aware generated workspaces (ground truth recorded by the generator's sidecar) loaded into ide::AnalysisHost; by-construction binding oracle (C05), refs<=>goto census law (C06), rename + fresh re-analysis isomorphism (C07), rename refusal reference table over three packages (C08), completion scope sets and accept-and-resolve (C18)"},
     {"name": "m_types", "path": "harness/vh/src/bin/m_types.rs", "serves_properties": ["C09", "C05", "C18", "C19"],
@@ -136,11 +138,11 @@ META = {
         "level_note": "The model (vh::lspmodel) is hand-written from the LSP specification; outgoing ranges of real handlers are additionally exercised end to end by C13/C15/C19.",
     },
     "C15": {
-        "technique": "fault enumeration: grammar of valid and invalid LSP messages against the real binary; liveness, exactly-once accounting, acceptable-state-set oracle, deadlock classifier",
+        "technique": "fault enumeration: grammar of valid and invalid LSP messages against the real binary; liveness, exactly-once accounting, acceptable-state-set oracle, deadlock classifier; thorough tier: the same sequences against AddressSanitizer and ThreadSanitizer builds of the server (sanitizer reports read from log files, self-tested)",
         "level_text": ("Fault enumeration: ~3x10^3 sequences (5-60 messages each) per quick run, each against a fresh server process, covering every invalid-position class x message kind listed in the evidence. "
                        "Found and repaired: five ways to kill the server with one notification (reversed range, positions beyond the document, mid-surrogate column, change after a rejected change, non-file URI)."),
         "design_ref": "DESIGN.md §5 C15",
-        "level_note": "A deadlock verdict requires unanswered requests, an unanswered probe and flat CPU over 2 s; anything else that is slow is inconclusive. Valgrind memcheck subset: thorough tier.",
+        "level_note": "A deadlock verdict requires unanswered requests, an unanswered probe and flat CPU over 2 s; anything else that is slow is inconclusive. Sanitizer builds (ASan, TSan with -Zbuild-std): thorough tier; one family of TSan reports inside the pinned parking_lot/salsa pair is a listed known finding (DESIGN.md section 6).",
     },
     "C19": {
         "technique": "LSP semantic-token decoder model: exhaustive encoder inputs over small documents; end-to-end highlight -> encode -> decode vs. generator ground truth; on the wire: token streams of the real server decoded through the legend and encoding it announced to clients of differing capabilities",
@@ -156,14 +158,14 @@ META = {
         "level_note": "Set-valued answers are compared as sorted multisets; probes are sampled token boundaries (12 per file quick, 30 thorough); LRU eviction (140-module workspace) is a thorough-tier case.",
     },
     "C12": {
-        "technique": "tagged-snapshot history checker: answers recorded on reader threads are checked offline against a fresh analysis of the snapshot's version; cancellation and promptness accounting with seeded delays; thorough tier additionally runs the smallest scenario under Miri (data-race / UB detector, schedules varied by seed)",
+        "technique": "tagged-snapshot history checker: answers recorded on reader threads are checked offline against a fresh analysis of the snapshot's version; cancellation and promptness accounting with seeded delays; thorough tier additionally runs the smallest scenario under Miri (data-race / UB detector, schedules varied by seed) and the whole scenario engine under ThreadSanitizer (instrumented std, native thread counts)",
         "level_text": ("Exploration of schedules: ~10^4 scenarios / 2.5x10^6 recorded queries per quick run, ~1.3x10^5 of them cancelled mid-sweep; every answer equals its own version's answer; no panic other than Cancelled; "
                        "apply_change latency distribution reported. Held on everything observed."),
         "design_ref": "DESIGN.md §5 C12",
-        "level_note": "Promptness is restated as: no query starting >700 ms after a change request may still answer, and apply_change <= 2.5 s (reader sweep cap). Schedules are sampled, not enumerated.",
+        "level_note": "Promptness is restated as: no query starting >700 ms after a change request may still answer, and apply_change <= 2.5 s (reader sweep cap). Schedules are sampled, not enumerated. ThreadSanitizer reports whose two accesses both lie in salsa state guarded by parking_lot 0.11.2's RwLock are one listed known finding (a dependency-level report, reproduced without glas); any other race report fails the run.",
     },
     "C16": {
-        "technique": "concurrent vs. sequential differential on the real binary with seeded message batching and seeded delays at yield points (hook); exactly-once accounting; convergence monitor; deadlock classifier with gdb witness",
+        "technique": "concurrent vs. sequential differential on the real binary with seeded message batching and seeded delays at yield points (hook); exactly-once accounting; convergence monitor; deadlock classifier with gdb witness; thorough tier: the same races against a ThreadSanitizer build of the server",
         "level_text": ("Exploration of schedules: ~5x10^2 races per quick run, ~10^4 raced requests (results / RequestCancelled / errors counted per version lag), yield-point hit counts in the evidence. "
                        "Found and repaired: main-loop stall with more in-flight requests than cores, version mixtures through the shared document store, lost and re-ordered diagnostics publications."),
         "design_ref": "DESIGN.md §5 C16",
